@@ -198,6 +198,11 @@ func (o *OracleIn) expect(parent *Node, path string, raw string, c *Node, mask b
 			}
 			return name, w, true
 		}
+		if uint64(len(c.Content)) != c.Size {
+			// what a read returns is not what lstat announced (procfs / sysfs, or a concurrent writer)
+			w.kind, w.problem = core.EntryKind_Problematic, "hashed size mismatch"
+			return name, w, true
+		}
 		if c.Sec < -62135596800 || c.Sec > 253402300799 {
 			w.kind, w.problem = core.EntryKind_Problematic, "unable to convert file modification time"
 			return name, w, true
